@@ -166,18 +166,36 @@ Section Defers.
   Definition one_call (c : ctx) (g : glob) (d : dfr) : glob :=
     set_anc (fst (child (set_anc g []) (child_ctx c d))) (g_anc g).
 
+  (* every deferred call of the list is started, whatever the others return *)
+  Lemma invoke_list_all : forall c l g,
+    exists e, invoke_list child false g c l = (fold_left (one_call c) l g, c, e).
+  Proof.
+    intros c l. induction l as [|d r IH]; intros g; cbn [invoke_list fold_left]; [eexists; reflexivity|].
+    unfold one_call at 2. destruct (child (set_anc g []) (child_ctx c d)) as [g1 e] eqn:E. cbn [fst].
+    destruct (IH (set_anc g1 (g_anc g))) as [e3 H3]. rewrite H3. eexists. reflexivity.
+  Qed.
+
   Lemma invoke_list_ok : forall c l g, child_ok ->
     invoke_list child false g c l = (fold_left (one_call c) l g, c, None).
   Proof.
     intros c l. induction l as [|d r IH]; intros g Hok; cbn [invoke_list fold_left]; [reflexivity|].
     unfold one_call at 2. destruct (child (set_anc g []) (child_ctx c d)) as [g1 e] eqn:E.
     pose proof (Hok (set_anc g []) (child_ctx c d)) as H1. rewrite E in H1. cbn in H1. cbn [fst].
-    destruct H1 as [-> | ->]; apply IH; exact Hok.
+    rewrite (IH _ Hok). destruct H1 as [-> | ->]; reflexivity.
   Qed.
 
-  (* the RunDefers instruction (repaired code): the deferred calls of the frame are started in the reverse
-     of their registration order, each once, and the list is spent *)
-  Theorem run_defers_rev_once : forall g c, child_ok ->
+  (* the RunDefers instruction (repaired code): the deferred calls of the frame are ALL started, in the reverse
+     of their registration order, each once, whatever any of them returns, and the list is spent *)
+  Theorem run_defers_rev_once : forall g c,
+    exists e, run_defers_op child g c = (fold_left (one_call c) (rev (c_defers c)) g, set_defers c [], e).
+  Proof.
+    intros g c. unfold run_defers_op, invoke_deferred.
+    destruct (c_defers c) as [|d r] eqn:E.
+    - cbn. exists None. destruct c; cbn in *; subst; reflexivity.
+    - destruct (invoke_list_all c (rev (d :: r)) g) as [e H]. rewrite H. eexists. reflexivity.
+  Qed.
+
+  Theorem run_defers_rev_once_ok : forall g c, child_ok ->
     run_defers_op child g c = (fold_left (one_call c) (rev (c_defers c)) g, set_defers c [], None).
   Proof.
     intros g c Hok. unfold run_defers_op, invoke_deferred.
@@ -192,8 +210,9 @@ Section Defers.
   Proof.
     intros pk l. induction l as [|d r IH]; intros g c g1 c1 e H; cbn [invoke_list] in H.
     - injection H as <- <- <-. reflexivity.
-    - destruct (child _ _) as [g2 e2]. destruct e2 as [[]|]; try (injection H as <- <- <-; destruct pk; reflexivity);
-      apply IH in H; rewrite H; destruct pk; reflexivity.
+    - destruct (child _ _) as [g2 e2].
+      destruct (invoke_list child pk _ _ r) as [[g3 c3] e3] eqn:E3. injection H as <- <- <-.
+      apply IH in E3. rewrite E3. destruct pk; reflexivity.
   Qed.
 
   Theorem run_defers_spent : forall g c g1 c1 e,
@@ -224,13 +243,13 @@ Section Defers.
     let g1 := fst (child (set_anc g (c_panic c :: g_anc g)) (child_ctx c d)) in
     (set_anc g1 (tl (g_anc g1)), set_panic c (hd None (g_anc g1))).
 
-  Lemma invoke_panic_list_ok : forall l g c, child_ok ->
-    invoke_list child true g c l = (fold_left one_panic_call l (g, c), None).
+  Lemma invoke_panic_list_all : forall l g c,
+    exists e, invoke_list child true g c l = (fold_left one_panic_call l (g, c), e).
   Proof.
-    induction l as [|d r IH]; intros g c Hok; cbn [invoke_list fold_left]; [reflexivity|].
-    unfold one_panic_call at 2. destruct (child _ _) as [g1 e] eqn:E.
-    pose proof (Hok (set_anc g (c_panic c :: g_anc g)) (child_ctx c d)) as H1. rewrite E in H1. cbn in H1. cbn [fst].
-    destruct H1 as [-> | ->]; apply IH; exact Hok.
+    induction l as [|d r IH]; intros g c; cbn [invoke_list fold_left]; [eexists; reflexivity|].
+    unfold one_panic_call at 2. destruct (child _ _) as [g1 e] eqn:E. cbn [fst].
+    destruct (IH (set_anc g1 (tl (g_anc g1))) (set_panic c (hd None (g_anc g1)))) as [e3 H3].
+    destruct (fold_left one_panic_call r _) as [gf cf] eqn:F. rewrite H3. eexists. reflexivity.
   Qed.
 
   (* a frame whose deferred calls recovered the panic: execution resumes in the caller *)
@@ -262,3 +281,23 @@ Section Defers.
       right. eexists. reflexivity.
   Qed.
 End Defers.
+
+(* ------------------------------------------------------------------ Return(1) (fix 030cc3b3) *)
+Lemma trunc_length : forall A (l : list A) n, n <= length l -> length (trunc n l) = n.
+Proof. intros A l n H. unfold trunc. rewrite skipn_length. lia. Qed.
+
+(* inside a function nothing of the returning function stays above its call frame, whatever markers (try
+   blocks, loops) and temporaries surrounded the return statement *)
+Theorem ret1_stack_clean : forall fp st, 0 < fp -> fp <= length st -> length (ret1_stack fp st) = fp.
+Proof.
+  intros fp st H0 Hl. unfold ret1_stack.
+  destruct (Nat.ltb_spec 0 fp); [|lia]. destruct (Nat.ltb_spec fp (length st)); cbn [andb].
+  - apply trunc_length. lia.
+  - lia.
+Qed.
+
+Theorem ret1_stack_old_leaks : exists fp st, 0 < fp /\ fp <= length st /\ length (ret1_stack_old fp st) <> fp.
+Proof.
+  exists 1, [ItM L_try; ItM L_try; ItF {| f_code := CUnit 0; f_pc := 0; f_fp := 0; f_syms := 0; f_defers := []; f_trydepth := 0 |}].
+  vm_compute. split; [auto|]. split; [auto|]. discriminate.
+Qed.
